@@ -635,7 +635,7 @@ def main(args):
     print(f"[{prop}] tier={tier} VERIF_SEED={seed} runs={runs} workers={args.workers} repo={core.REPO}", flush=True)
     tasks = [{"prop": prop, "seed": seed, "index": i, "cfg": cfg, "scratch": scratch} for i in range(runs)]
     results, harness_errors, skipped = core.run_pool(run_one, tasks, args.workers, per_task_timeout_s=900,
-                                                     wall_cap_s=160 if tier == "quick" else 1500)
+                                                     wall_cap_s=160 if tier == "quick" else 600)
     done = [r for r in results if r is not None]
     print(f"[{prop}] search phase done: {len(done)} runs in {time.monotonic() - t0:.1f}s", flush=True)
     if args.digests_only:
